@@ -31,14 +31,19 @@ F3Body == Gr(<<Nd("Elu", <<<<"alpha", "@p">>>>, <<R("in", 4, 1, 0)>>, 1, <<>>, 0
 \* F4(x) = ai.onnx.ml::Binarizer(x): a body that needs an operator set the main graph does not import
 \* F5(x) = Sub(F1(x), x): a function calling another function (present in every model, called or not)
 F4Body == Gr(<<Nd("ai.onnx.ml::Binarizer", <<>>, <<R("in", 5, 1, 0)>>, 1, <<>>, 0)>>, <<R("out", 5, 1, 1)>>, <<>>)
+\* F6(x) = (Neg(x), Add(Neg(x), x)): two outputs, the first one also used inside the body; a call may omit
+\* (leave unnamed) one of the outputs - recorded on the call as the pseudo attribute __omit
+F6Body == Gr(<<Nd("Neg", <<>>, <<R("in", 7, 1, 0)>>, 1, <<>>, 0),
+               Nd("Add", <<>>, <<R("out", 7, 1, 1), R("in", 7, 1, 0)>>, 1, <<>>, 0)>>,
+             <<R("out", 7, 1, 1), R("out", 7, 2, 1)>>, <<>>)
 F5Body == Gr(<<Nd("F1", <<>>, <<R("in", 6, 1, 0)>>, 1, <<>>, 1),
                Nd("Sub", <<>>, <<R("out", 6, 1, 1), R("in", 6, 1, 0)>>, 1, <<>>, 0)>>, <<R("out", 6, 2, 1)>>, <<>>)
 
 Init ==
   /\ p = [nin |-> 3,
-          g |-> <<Gr(<<>>, <<>>, <<"c1", "c1", "s1", "b1">>), F1Body, F2Body, F3Body, F4Body, F5Body>>,
+          g |-> <<Gr(<<>>, <<>>, <<"c1", "c1", "s1", "b1">>), F1Body, F2Body, F3Body, F4Body, F5Body, F6Body>>,
           f |-> <<[body |-> 2, nin |-> 1], [body |-> 3, nin |-> 2], [body |-> 4, nin |-> 1],
-                  [body |-> 5, nin |-> 1], [body |-> 6, nin |-> 1]>>]
+                  [body |-> 5, nin |-> 1], [body |-> 6, nin |-> 1], [body |-> 7, nin |-> 1]>>]
   /\ phase = "build"
 
 Main == p.g[1]
@@ -50,7 +55,9 @@ TypedTok == {"k1", "k2"}
 IsMask(r) == Main.nodes[r[3]].op = "Dropout" /\ r[4] = 2
 IsTyped(r) == Main.nodes[r[3]].op = "Constant" /\ Main.nodes[r[3]].attr[1][2] \in TypedTok
 TypedOuts == {r \in AllNodeOuts : IsTyped(r)}
-NodeOuts == {r \in AllNodeOuts : ~IsMask(r) /\ ~IsTyped(r)}
+IsOmitted(r) == \E k \in DOMAIN Main.nodes[r[3]].attr :
+                   Main.nodes[r[3]].attr[k] = <<"__omit", IF r[4] = 1 THEN "1" ELSE "2">>
+NodeOuts == {r \in AllNodeOuts : ~IsMask(r) /\ ~IsTyped(r) /\ ~IsOmitted(r)}
 Avail == {R("in", 1, 1, 0), R("in", 1, 2, 0), R("init", 1, 1, 0), R("init", 1, 2, 0)} \cup NodeOuts
 \* second operands: a small representative subset
 Second == {R("in", 1, 1, 0), R("init", 1, 2, 0)} \cup {r \in NodeOuts : r[3] = Len(Main.nodes)}
@@ -101,6 +108,8 @@ Build ==
      \/ \E x \in Avail, a \in {<<>>, <<<<"p", "2.0">>>>} : "Call" \in Ops /\ AddNode(Nd("F3", a, <<x>>, 1, <<>>, 3))
      \/ \E x \in Avail : "Call2" \in Ops /\ AddNode(Nd("F4", <<>>, <<x>>, 1, <<>>, 4))
      \/ \E x \in Avail : "Call2" \in Ops /\ AddNode(Nd("F5", <<>>, <<x>>, 1, <<>>, 5))
+     \/ \E x \in Avail, om \in {<<>>, <<<<"__omit", "1">>>>} :   \* (a trailing omitted output is trimmed by serialization itself)
+           "Call2" \in Ops /\ AddNode(Nd("F6", om, <<x>>, 2, <<>>, 6))
   /\ UNCHANGED phase
 
 OutChoices == NodeOuts \cup TypedOuts \cup {R("in", 1, 1, 0), R("init", 1, 1, 0)}
@@ -120,7 +129,7 @@ Spec == Init /\ [][Next]_vars
 OpCode(op) == CASE op = "Neg" -> 1 [] op = "Identity" -> 2 [] op = "Add" -> 3 [] op = "Sub" -> 4 [] op = "Constant" -> 5
                 [] op = "Split" -> 6 [] op = "Clip" -> 7 [] op = "If" -> 8 [] op = "F1" -> 9 [] op = "F2" -> 10 [] op = "F3" -> 11
                 [] op = "Cast" -> 13 [] op = "Dropout" -> 14 [] op = "LayerNormalization" -> 15 [] op = "BatchNormalization" -> 16
-                [] op = "F4" -> 17 [] op = "F5" -> 18 [] OTHER -> 12
+                [] op = "F4" -> 17 [] op = "F5" -> 18 [] op = "F6" -> 19 [] OTHER -> 12
 RefCode(r) == (IF r[1] = "in" THEN 1 ELSE IF r[1] = "init" THEN 2 ELSE IF r[1] = "out" THEN 3 ELSE 0) + 5 * r[2] + 11 * r[3] + 17 * r[4]
 NodeCode(n) == OpCode(n.op) + 13 * Len(n.attr) + FoldLeft(LAMBDA a, r : (a * 7 + RefCode(r)) % 100003, 0, n.ins)
 GraphCode(g) == FoldLeft(LAMBDA a, r : (a * 3 + RefCode(r)) % 100003,
